@@ -74,9 +74,11 @@ def parse_kani_output(out):
     r['unwind_failure'] = any('unwinding assertion' in f['description'] for f in r['failures'])
     r['bound_exceeded'] = any('VERIF-BOUND' in f['description'] for f in r['failures'])
     r['unsupported'] = any('not currently supported by Kani' in f['description'] for f in r['failures'])
-    m = re.search(r'Concrete playback unit test for `.*?`:\n```\n(.*?)```', out, re.S)
-    if m:
-        r['playback'] = m.group(1)
+    # one unit test per failing assertion AND per satisfied cover: keep them all, failing-assertion ones first
+    blocks = re.findall(r'Concrete playback unit test for `.*?`:\n```\n(.*?)```', out, re.S)
+    if blocks:
+        r['playback'] = blocks[0]
+        r['playbacks'] = blocks
     return r
 
 
@@ -166,6 +168,7 @@ def run_many(specs, tag, crate, features=None, jobs=None, codegen_extra=None):
                 r2 = run_harness(spec, slot)
                 if 'playback' in r2:
                     r['playback'] = r2['playback']
+                    r['playbacks'] = r2.get('playbacks')
             log('[kani] %-44s %-12s %6.1fs %s' % (r['name'], r['verdict'], r['wall'], r.get('why', '')[:160]))
             results[i] = r
         finally:
